@@ -387,13 +387,27 @@ func stable(msg, dir string) string {
 
 // judgeText is the oracle shared by all sub-checks: text is a compilation unit the
 // shipped parser accepts. It is analysed alone and between two ordinary files.
-func judgeText(text string) string {
+func judgeText(text string) string { return judgeTextAt(text, "", false) }
+
+// unitTwinName: the second file with the same text, when the project holds the unit twice
+const unitTwinName = "P_Unit2.java"
+
+// judgeTextAt: rel is the place of the unit in the analysed directory ("" = M_Unit.java), twice adds a second file
+// with the same text to the project.
+func judgeTextAt(text, rel string, twice bool) string {
+	if rel == "" {
+		rel = unitName
+	}
 	dir := cli.Scratch("c09-")
 	defer os.RemoveAll(dir)
 	single := filepath.Join(dir, "single")
 	project := filepath.Join(dir, "project")
-	cli.WriteTree(single, map[string]string{unitName: text})
-	cli.WriteTree(project, map[string]string{nbFirstName: nbFirst, nbServiceName: nbService, unitName: text, nbLastName: nbLast})
+	cli.WriteTree(single, map[string]string{rel: text})
+	files := map[string]string{nbFirstName: nbFirst, nbServiceName: nbService, rel: text, nbLastName: nbLast}
+	if twice {
+		files[unitTwinName] = text
+	}
+	cli.WriteTree(project, files)
 	if _, msg := runPasses(single); msg != "" {
 		return stable("file alone: "+msg, dir)
 	}
